@@ -294,11 +294,12 @@ def execute(schedule, ctx):
             chk('read/internal-variable-through-alias', False, {'exc': type(e).__name__})
 
     def storage_ok(when):
-        keysA = sorted(k for k in A.__dict__ if k.startswith('_') and k not in ('_ctl',))
-        keysK = sorted(k for k in K.__dict__ if k.startswith('_') and k not in ('_ctl',))
-        chk('no-extra-storage', keysA == keysK, {'extra': sorted(set(keysA) - set(keysK)), 'missing': sorted(set(keysK) - set(keysA)), 'when': when})
-        extraA = sorted(set(A.__dict__) - set(K.__dict__) - {'aliases', 'preferred_names'})
-        chk('no-extra-attributes', not extraA and list(A.__dict__['index']) == list(K.__dict__['index']), {'extra': extraA, 'when': when})
+        # "aliases create no additional storage": no array lives in the aliased object that the canonical twin lacks, and
+        # the variable list is the twin's (private non-array bookkeeping of the mixin is its own business)
+        arrA = sorted(k for k, v in A.__dict__.items() if isinstance(v, np.ndarray))
+        arrK = sorted(k for k, v in K.__dict__.items() if isinstance(v, np.ndarray))
+        chk('no-extra-storage', arrA == arrK, {'extra': sorted(set(arrA) - set(arrK)), 'missing': sorted(set(arrK) - set(arrA)), 'when': when})
+        chk('no-extra-attributes', list(A.__dict__['index']) == list(K.__dict__['index']), {'aliased': list(A.__dict__['index'])[:12], 'canonical': list(K.__dict__['index'])[:12], 'when': when})
 
     storage_ok('construction')
 
